@@ -270,3 +270,36 @@ package scanner
 //@   ensures normal && isBlank(c) && !isNewLine(c) ==> len(s.finds) == old(len(s.finds)) && s.step == old(s.step)
 //@   ensures normal && c == ',' ==> s.step == stateFoundArrayItemBegin && len(s.finds) == old(len(s.finds))
 //@   ensures normal && c == ']' ==> len(s.finds) == old(len(s.finds)) + 1 && s.finds[old(len(s.finds))] == lexeme.ArrayEnd
+
+//@ func (*Scanner).newDocumentError(code, c)
+//@   props C07 C17
+//@   requires s != nil && 1 <= s.index && s.index <= len(s.data) && errArity(code) == 1
+//@   nopanic
+//@   ensures result.index == s.index - 1 && result.hasIndex && result.file == s.file && result.code == code
+
+// ---- C13: rule names in an annotation object may be bare or quoted.  A bare name
+// ends at ':' (blanks before it allowed, they belong to the lexeme and are dropped by
+// the loader); a quoted one at its closing quote; control bytes, line ends, a
+// backslash at the start, or a quote inside a bare name are errors ----
+//@ func stateInAnnotationObjectKeyFirstLetter(s, c)
+//@   props C13
+//@   requires s != nil && 1 <= s.index && s.index <= len(s.data)
+//@   maypanic
+//@   modifies s.step
+//@   ensures panics <==> ((s.boundary == 0 && (c == ':' || isNewLine(c) || c == 92)) || c == s.boundary || c < 32)
+//@   ensures normal ==> result == scanContinue && s.step == stateInAnnotationObjectKey
+//@   ensures panics ==> typeis(pv, errors.DocumentError) && unbox(pv, errors.DocumentError).code == errors.ErrInvalidCharacterInAnnotationObjectKey && unbox(pv, errors.DocumentError).index == s.index - 1
+// the end of a value: which closing event follows from what is open (the step it
+// continues with is called through the step field: its effect is not tracked here)
+//@ func stateEndValue(s, c)
+//@   props C06
+//@   requires s != nil && s.stack != nil && s.returnToStep != nil && s.prevContextsStack != nil && 1 <= s.index && s.index <= len(s.data)
+//@   maypanic
+//@   modifies *
+//@ func stateInAnnotationObjectKeyAfter(s, c)
+//@   props C13
+//@   requires s != nil && s.stack != nil && s.returnToStep != nil && s.prevContextsStack != nil && 1 <= s.index && s.index <= len(s.data)
+//@   maypanic
+//@   modifies *
+//@   ensures c == ' ' ==> normal && result == scanContinue
+//@   ensures c != ' ' && !(old(s.boundary) == 0 && c == ':') ==> panics && typeis(pv, errors.DocumentError) && unbox(pv, errors.DocumentError).code == errors.ErrInvalidCharacterInAnnotationObjectKey
